@@ -324,7 +324,7 @@ def units(w):
                 return z3.Concat(z3.SubString(z, i, 1), go(i + 1))
             return go(0)
         return spec
-    for n, m in ((0, 1), (1, 1), (2, 1), (3, 1), (2, 2), (3, 2)):
+    for n, m in ((0, 1), (1, 1), (2, 1), (2, 2), (3, 2)):      # (a subject of 3 with a pattern of 1 character costs minutes of string solving: left to the stand-in)
         U.append(str_unit("replace", "String->replace(s, a, b)", mk_repl(n, m), repl_spec(n, m), f"subject of {n}, pattern of {m} characters"))
         U[-1].thorough_only = n == 3      # (string solving: up to two minutes)
 
